@@ -75,7 +75,9 @@ partial def showV : V → String
   | .dict ks vs => "{" ++ ",".intercalate ((ks.zip vs).map fun (k, v) => hexStr k ++ "=" ++ showV v) ++ "}"
   | .obj c ks vs => c ++ "{" ++ ",".intercalate ((ks.zip vs).map fun (k, v) => k ++ "=" ++ showV v) ++ "}"
   | .map ks vs => "{" ++ ",".intercalate ((ks.zip vs).map fun (k, v) => showV k ++ "=" ++ showV v) ++ "}"
-  | .float w bits => s!"F{w}:{bits}"
+  | .float w bits => match floatIsNaN w bits with
+    | .ok true => "Fnan"
+    | _ => s!"F{w}:{bits}"
 
 def errName (e : PyErr) : String := (reprStr e).replace "PlumVerif.Py.PyErr." ""
 
@@ -89,6 +91,7 @@ def pyOps : List String → Option String
     | (.ok v, rest) => pure s!"ok {showV v} {showHex rest}"
     | (.error e, rest) => pure s!"err {errName e} {showHex rest}"
   | ["py-functions"] => some (" ".intercalate functions)
+  | ["py-stateful"] => some (" ".intercalate statefulFunctions)
   | _ => none
 
 end PlumVerif.PyCode
